@@ -193,7 +193,7 @@ func parseHeaders(h *protocol.ResponseHeader, buf []byte) (int, error) {
 					continue
 				}
 				if utils.CaseInsensitiveCompare(s.Key, bytestr.StrTrailer) {
-					err = h.Trailer().SetTrailers(s.Value)
+					err = h.Trailer().AddTrailers(s.Value)
 					continue
 				}
 			}
